@@ -669,3 +669,84 @@ Example C03_example_mapped_row :
   | _, _ => False
   end.
 Proof. vm_compute. repeat split; discriminate. Qed.
+
+(* ================================================================== the expectation is defined *)
+From Knut Require Import Proofs.MarkToMarketDefined.
+
+(* THE CONTRAPOSITIVE OF C03_missing_price_fails ON THE REPORT: if the balance command succeeds, then
+   on EVERY date T (not only the last day, C03_held_has_price) every commodity other than V of which
+   an asset/liability account holds a non-zero quantity (exact sum of the bookings dated <= T) has a
+   price in V from the declarations dated <= T.  The run over the days dated <= T is a prefix of the
+   successful run; a position that is open at the start of a day is revalued, which fails without
+   the day's price, and a booking of a non-zero quantity fails without the price of its day. *)
+Theorem C03_held_price_every_day : forall cfg ds r part V,
+  bc_valuation cfg = Some V ->
+  balance_report cfg ds = COk (r, part) ->
+  exists dl,
+    parse_directives ds = MOk dl /\
+    (postings_syntactic dl ->
+     forall a c T, account_ok a = true -> is_AL a = true -> c <> V ->
+       is_zero (ValuationSpec.qty_upto (flat_postings dl) a c T) = false ->
+       exists pr, ValuationSpec.price_on dl V c T = Some pr).
+Proof. exact held_price_report. Qed.
+Print Assumptions C03_held_price_every_day.
+
+(* A SUCCESSFUL RUN HAS EVERY PRICE THE CHECK'S EXPECTATION NEEDS: for every configuration with a
+   valuation commodity and every journal on which the balance command succeeds, every asset/liability
+   account with a valid name -- shown as itself or not, passing the filters or not, whatever the
+   window -- has a market value on every date, hence mtm_expected is Some for every window start and
+   column date, and every entry of mtm_row carries an expectation.  Together with
+   C03_model_meets_spec: the clause "nth_error exps j = Some (Some e, n)" there holds for every j. *)
+Theorem C03_expected_defined : forall cfg ds r part V,
+  bc_valuation cfg = Some V ->
+  balance_report cfg ds = COk (r, part) ->
+  exists dl,
+    parse_directives ds = MOk dl /\
+    (postings_syntactic dl ->
+     forall a, account_ok a = true -> is_AL a = true ->
+       (forall T, exists x, ValuationSpec.market_value dl V a T = Some x) /\
+       (forall W E, exists e, ValuationSpec.mtm_expected dl V a W E = Some e) /\
+       exists exps,
+         ValuationSpec.mtm_row cfg dl a = Some exps /\ length exps = length (end_dates part) /\
+         forall j eo n, nth_error exps j = Some (eo, n) -> exists e, eo = Some e).
+Proof. exact expected_defined. Qed.
+Print Assumptions C03_expected_defined.
+
+(* for the accounts the runtime check visits (ValuationSpec.al_accounts: the asset/liability accounts
+   of the journal's bookings) the parser's guarantee is the only side condition *)
+Theorem C03_expected_defined_journal_accounts : forall cfg ds r part V,
+  bc_valuation cfg = Some V ->
+  balance_report cfg ds = COk (r, part) ->
+  exists dl,
+    parse_directives ds = MOk dl /\
+    (postings_syntactic dl ->
+     forall a, In a (ValuationSpec.al_accounts dl) ->
+       exists exps,
+         ValuationSpec.mtm_row cfg dl a = Some exps /\ length exps = length (end_dates part) /\
+         forall j eo n, nth_error exps j = Some (eo, n) -> exists e, eo = Some e).
+Proof. exact expected_defined_accounts. Qed.
+Print Assumptions C03_expected_defined_journal_accounts.
+
+(* The corner that the definition of market_value has to respect (and does: it skips a commodity whose
+   quantity is zero): "every commodity among held_commodities has a price whenever the run succeeds"
+   is FALSE.  A booking of quantity zero asks Valuate for no price; the commodity is still among the
+   held commodities of the account.  Witness: the journal of C03_example_windowed_report with an
+   additional booking of 0 Z on 03-03, Z never priced.  The command succeeds, Z is held by Assets:B,
+   price_on is None on the last column date, and mtm_row is nevertheless defined in every column. *)
+Theorem C03_held_commodity_has_price_refuted :
+  exists cfg ds r part V dl a c T,
+    bc_valuation cfg = Some V /\ balance_report cfg ds = COk (r, part) /\ parse_directives ds = MOk dl /\
+    postings_syntactic_b dl = true /\ account_ok a = true /\ is_AL a = true /\
+    In c (ValuationSpec.held_commodities (flat_postings dl) a) /\ In T (end_dates part) /\
+    ValuationSpec.price_on dl V c T = None /\
+    ValuationSpec.mtm_row cfg dl a
+      = Some [(Some (mkDec 1148148180 (-9)), 3%Z); (Some (mkDec 1748148183 (-9)), 7%Z); (Some (mkDec 4148148159 (-9)), 9%Z)].
+Proof.
+  destruct (balance_report (exr_cfg true) exd_journal) as [[r part]| |] eqn:Er; [|vm_compute in Er; discriminate..].
+  destruct (parse_directives exd_journal) as [dl| |] eqn:Ep; [|vm_compute in Ep; discriminate..].
+  exists (exr_cfg true), exd_journal, r, part, exr_V, dl, exr_a, exd_z, (exr_d0 + 3)%Z.
+  split; [reflexivity|]. split; [exact Er|]. split; [exact Ep|].
+  vm_compute in Er. injection Er as <- <-. vm_compute in Ep. injection Ep as <-.
+  vm_compute. repeat split; try discriminate; auto.
+Qed.
+Print Assumptions C03_held_commodity_has_price_refuted.
